@@ -33,30 +33,31 @@ type LoopSpec struct {
 }
 
 type FuncSpec struct {
-	Pkg        string
-	Key        string // "(*list_).InsertValue", "Array", "Sequential.GetSize"
-	IsIface    bool
-	Assume     bool // trusted contract of an external / unverified function
-	Implements []string
-	Uses       []string             // lemmas made available to this function's obligations
-	Hints      map[int][]*Clause    // proof hints asserted (proved, then assumed) after the k-th call
-	NamedHints map[string][]*Clause // hints attached to "NAME#K" (K-th call of NAME), "-NAME#K" = before; resolved per function
-	namedDone  bool
-	Trusts     map[string]string // obligation suffix -> reason: runtime checks taken on trust (listed in the evidence)
-	Props      []string
-	Lets       []*Clause
-	Requires   []*Clause
-	Assumes    []*Clause // assumed at entry, not required of callers (heap well-formedness)
-	Defines    []*Clause // definitional postconditions (assumed at call sites only)
-	Ensures    []*Clause
-	IEnsures   []*Clause
-	XEnsures   []*Clause
-	Modifies   []*Clause
-	Loops      map[int]*LoopSpec
-	Decreases  *Clause
-	Flags      map[string]bool
-	File       string
-	Line       int
+	Pkg         string
+	Key         string // "(*list_).InsertValue", "Array", "Sequential.GetSize"
+	IsIface     bool
+	Assume      bool // trusted contract of an external / unverified function
+	Implements  []string
+	Uses        []string             // lemmas made available to this function's obligations
+	Hints       map[int][]*Clause    // proof hints asserted (proved, then assumed) after the k-th call
+	NamedHints  map[string][]*Clause // hints attached to "NAME#K" (K-th call of NAME), "-NAME#K" = before; resolved per function
+	namedDone   bool
+	OrphanHints map[string][]*Clause // named hints whose target call is not in the function's own body
+	Trusts      map[string]string    // obligation suffix -> reason: runtime checks taken on trust (listed in the evidence)
+	Props       []string
+	Lets        []*Clause
+	Requires    []*Clause
+	Assumes     []*Clause // assumed at entry, not required of callers (heap well-formedness)
+	Defines     []*Clause // definitional postconditions (assumed at call sites only)
+	Ensures     []*Clause
+	IEnsures    []*Clause
+	XEnsures    []*Clause
+	Modifies    []*Clause
+	Loops       map[int]*LoopSpec
+	Decreases   *Clause
+	Flags       map[string]bool
+	File        string
+	Line        int
 }
 
 type TypeSpec struct {
